@@ -66,6 +66,7 @@ def run(ctx):
             res['failures'].append(f)
     dis, dumps = common.corr_stage('parse', texts, impl.parse_dump, 'parse', extra='all ')
     res['disagreements'] += dis
+    kdone = common.kernel_route(ctx, 'parse', texts, res)
     # stage-wise: tree after each pass on a sample
     npass = len(impl.pass_list())
     sample = texts[:ctx.n(250, 3000)]
@@ -87,7 +88,8 @@ def run(ctx):
                 f'{npass} passes; distinct_nontrivial = distinct tree shapes containing at least one group below the statement',
         'samples': [t[:120] for t in texts[:5]],
         'traces_validated_against_impl': len(texts) + len(sample) * (npass + 1),
-        'distribution': {'generator': dict(dist), 'length_histogram': common.length_hist(texts), 'passes': npass},
+        'distribution': {'generator': dict(dist), 'length_histogram': common.length_hist(texts), 'passes': npass,
+                         'kernel_evaluated_parse (vm_compute inside coqc, compared with the implementation)': kdone},
     })
     return res
 
